@@ -276,17 +276,25 @@ class Engine:
         vals = self._extract(model)
         vals["__choices__"] = list(self.choices)
         slack_used = False
+        # prefer a counterexample that violates the claim by a margin (robust under float rounding in the replay):
+        # a ladder of margins / value boxes, coarse to fine; slack_claim may be one formula or a callable level -> formula
+        ladder = [(None, bound)] if not callable(slack_claim) else [(0, 1000), (1, 100), (2, 10)]
         if slack_claim is not None:
-            extra = [z3.Not(bterm(slack_claim))]
-            if bound is not None:
-                for v in self.inputs.values():
-                    if z3.is_real(v):
-                        extra += [v <= bound, v >= -bound]
-            r2, m2 = self._check(*extra)
-            if r2 == "sat":
-                vals = self._extract(m2)
-                vals["__choices__"] = list(self.choices)
-                slack_used = True
+            for level, bnd in ladder:
+                sc = slack_claim(level) if callable(slack_claim) else slack_claim
+                if sc is None:
+                    continue
+                extra = [z3.Not(bterm(sc))]
+                if bnd is not None:
+                    for v in self.inputs.values():
+                        if z3.is_real(v):
+                            extra += [v <= bnd, v >= -bnd]
+                r2, m2 = self._check(*extra)
+                if r2 == "sat":
+                    vals = self._extract(m2)
+                    vals["__choices__"] = list(self.choices)
+                    slack_used = True
+                    break
         self.obligations.append(Obligation(name, "violated", self._path_index, model=vals, info=info,
                                            slack_model=slack_used))
         return "violated"
